@@ -624,8 +624,10 @@ def _r2(ctx):
         for fn_ in rc.node.body:
             if isinstance(fn_, ast.FunctionDef) and fn_.name == "idxfromfile" and any(ast.unparse(d).endswith(".setter") for d in fn_.decorator_list):
                 has_int_setter = any(isinstance(c, ast.Call) and isinstance(c.func, ast.Name) and c.func.id == "int" for c in ast.walk(fn_))
+    from .c20 import straighten_module
     for f in pkg.files:
-        mod = pkg.modules[f]
+        # one store per statement, the value where it is stored (a value / an iterable hoisted into a once-used local is put back)
+        mod = straighten_module(pkg, f) if "idxfromfile" in ctx.tree.read(f) else pkg.modules[f]
         for node in ast.walk(mod):
             if isinstance(node, ast.Assign):
                 for t in node.targets:
